@@ -111,6 +111,14 @@ static void ps_apply(int ev) {
     vf_world_reset();
     set_blob(0x0E, 3000); set_blob(0x11, 3000); set_blob(0x13, 40);
     set_blob((uint8_t)staged[0], (size_t)staged[1]);
+    if (staged[7] >= 4) {      /* earlier in this session the getter failed (4) / the property was empty (5) at a first request */
+        int saved = pre_code; pre_code = 0;
+        if (staged[7] == 4) { if (staged[0] == 0x0E) W.host.icon_ok = 0; else W.host.fname_ok = 0; } else set_blob((uint8_t)staged[0], 0);
+        request((uint8_t)staged[0], 0, 0, 0x0201, 0, 0, NULL, 1);
+        set_blob((uint8_t)staged[0], (size_t)staged[1]);
+        pre_code = saved;
+        printf("    (first request of the session: %s; then the platform provides %d bytes)\n", staged[7] == 4 ? "the getter failed" : "the property was empty", staged[1]);
+    } else
     pre_steps(staged[7], (uint8_t)staged[0], (uint8_t)staged[4]);
     int more = 0;
     int L = request((uint8_t)staged[0], (size_t)staged[1], (uint16_t)staged[2], (uint16_t)staged[3], (uint8_t)staged[4], staged[5], &more, staged[6]);
@@ -167,6 +175,21 @@ int main(int argc, char **argv) {
             vf_world_reset(); set_blob(0x0E, 3000); set_blob(0x11, 3000); set_blob(0x13, 40);
             size_t size = ty[ti] == 0x13 ? 40 : 3000;
             for (int seq = 0; seq < 65536; seq++) request(ty[ti], size, (uint16_t)(oi ? size / 2 : 0), (uint16_t)seq, (uint8_t)((seq >> 3) & 1), br, NULL, 1);
+        }
+        /* the platform's answer changes within a session (no Reset in between): a getter that failed, or a property that was
+         * empty, at the first request; when the mapper comes back later and starts at offset 0 it must get the bytes the
+         * platform provides THEN */
+        for (int ti = 0; ti < 2; ti++) for (int how = 0; how < 1; how++) for (int szi = 0; szi < 3; szi++) {      /* how 1 (property empty at first, cached as such for the session) is a legitimate snapshot: not demanded */
+            static const uint8_t ty[2] = {0x0E, 0x11}; static const size_t szs[3] = {1, 0, 0};
+            size_t size = szi == 0 ? szs[0] : szi == 1 ? P : 2 * P + 7;
+            vf_world_reset(); set_blob(0x0E, 3000); set_blob(0x11, 3000);
+            if (how == 0) { if (ty[ti] == 0x0E) W.host.icon_ok = 0; else W.host.fname_ok = 0; }      /* getter fails */
+            else set_blob(ty[ti], 0);                                                                   /* property empty */
+            request(ty[ti], 0, 0, 0x0201, 0, 0, NULL, 1);        /* size 0: an empty answer is demanded */
+            set_blob(ty[ti], size);                               /* the platform recovers / the property appears */
+            pre_code = 4 + how;
+            reassemble(ty[ti], size);
+            pre_code = 0;
         }
         /* two stations: M2 is the active mapper (accepted Discover, own sequence numbers), then M1 requests a
          * large property: the response must carry THIS request's sequence number and the platform's bytes */
